@@ -83,6 +83,16 @@ TABLE = [
      "settings in all formats; the decoded file must be the exact partition (None) or a grouping of consecutive pieces around "
      "exactly one long piece each; overrides that cut into the data must raise and leave no file.",
      _NOTE, "DESIGN.md section 3 C04"),
+    ("C16", "model-based testing: Hypothesis generated edit histories on Wav objects vs a list-of-samples model; file round trip re-read with the stdlib wave module",
+     "Histories of <=6 insert/deleteSegment/replaceSegment/concatenate/getSubwav/getSamples/save-open operations at on- and off-grid "
+     "times for widths 1/2/4 and six frame rates are compared with a list model (nearest-sample index on exact rationals) after "
+     "every step; saved files are re-read with wave, Wav.open and QueryWav.",
+     _NOTE, "DESIGN.md section 3 C16"),
+    ("C17", "Hypothesis generated recordings x interval lists / textgrids vs a list-of-samples model; outputs re-read with stdlib wave and the independent TextGrid reader",
+     "readFramesAtTimes (keep/delete, with/without replacement, on/off grid, error cases), extractSubwav, splitAudioOnTier (name "
+     "styles, partial intervals, TextGrid output) and the audio generators are run on generated inputs and their byte/file "
+     "outputs are compared with a sample-level model.",
+     _NOTE, "DESIGN.md section 3 C17"),
 ]
 
 PENDING = {}
